@@ -541,7 +541,16 @@ class Assert(Statement):
     def write(self, scope: VhdlScope) -> str:
         if self._message is None:
             return f"assert {self._test.write(scope)};"
-        return f'assert {self._test.write(scope)} report "{self._message}";'
+        message = str(self._message)
+
+        assert (
+            len(message.splitlines()) <= 1
+        ), "the message of an assertion cannot contain line breaks"
+
+        # quotation marks inside of VHDL string literals are written twice
+        message = message.replace('"', '""')
+
+        return f'assert {self._test.write(scope)} report "{message}";'
 
 
 #
